@@ -34,6 +34,9 @@ def plan(tier, seed):
     specs.append({"name": "commands", "kind": "commands", "budget_s": 100 if tier == "quick" else 600,
                   "schemes": gen.SCHEMES if tier == "thorough" else ["CJJ14.PiBas", "CJJ14.Pi2Lev", "DP17.Pi", "CT14.Pi"]})
     specs.append({"name": "big-result", "kind": "big", "budget_s": 200})
+    # two client services alive in ONE process, each with its own connection, asking at the same moment
+    specs.append({"name": "two-clients-at-once", "kind": "pair", "budget_s": 100 if tier == "quick" else 600,
+                  "rounds": 3 if tier == "quick" else 40})
     if tier == "thorough":
         specs.append({"name": "real-processes", "kind": "procs", "budget_s": 600})
     return specs
@@ -52,7 +55,12 @@ def json_database(rng, scheme, cfg):
     """A JSON database (utf-8 keywords, hex identifiers) valid for the configuration, incl. leading-zero identifiers."""
     isz = cfg.get("param_identifier_size", 8)
     cp = gen.caps(scheme, cfg)
-    kws = ["China", "Github", "中文关键字", "é-accent", "k"][:rng.randint(2, 5)]
+    # keywords are stored and searched exactly as written: several are valid Unicode that is NOT in a normal form
+    # (decomposed accents, OHM / ANGSTROM signs, a compatibility ideograph, conjoining jamo, a ligature)
+    kws = ["China", "Github", "中文关键字", "é-accent", "k"][:rng.randint(2, 5)] + \
+        rng.sample(["re\u0301sume\u0301", "\u2126hm", "\u212bngstro\u0308m", "\uf900", "\u1112\u1161\u11ab", "\ufb01n",
+                    "Straße", "I\u0307stanbul"], rng.randint(1, 3))
+    rng.shuffle(kws)
     limit = cfg.get("param_l", 40) if scheme in ("CGKO06.SSE1", "CGKO06.SSE2") else 40
     kws = [k for k in kws if len(k.encode("utf8")) <= limit]
     pool = []
@@ -85,8 +93,9 @@ class Flow:
     def __init__(self, env, server, acc, scheme, cfg, db_json):
         self.env, self.server, self.acc = env, server, acc
         self.scheme, self.cfg, self.db_json = scheme, cfg, db_json
-        from toolkit.database_utils import convert_database_keyword_to_bytes
-        self.db = convert_database_keyword_to_bytes(json.loads(json.dumps(db_json)))
+        # the expected database is computed here, not with the repository's converter: keywords are the UTF-8 bytes
+        # of the strings as written, identifiers the bytes of the hex strings
+        self.db = {k.encode("utf8"): [bytes.fromhex(h) for h in v] for k, v in json.loads(json.dumps(db_json)).items()}
         self.Service = env["cservice"].Service
         self.svc = None
         self.sid = None
@@ -355,6 +364,79 @@ async def commands_layer(spec, acc, ctx):
     await server.stop()
 
 
+async def two_clients(spec, acc, ctx):
+    """Service objects A and B (different services, different databases) in one process: every network step is
+    made by both at once (asyncio.gather); each must be told ITS acknowledgement and ITS posting lists."""
+    env = wh.setup_env()
+    server = await wh.Server().start()
+    rng = ctx.rng
+    for rnd in range(spec["rounds"]):
+        if ctx.out_of_time():
+            break
+        sa, sb = rng.sample(gen.SCHEMES, 2) if rnd % 2 else (rng.choice(gen.SCHEMES),) * 2
+        flows_ = []
+        for sch in (sa, sb):
+            cid, cfg = scheme_config(sch, rng)
+            flows_.append(Flow(env, server, acc, sch, cfg, json_database(rng, sch, cfg)))
+        A, B = flows_
+        case = {"schemes": [sa, sb], "db_json": [A.db_json, B.db_json], "two_clients": True}
+        acc.count("workflows")
+        acc.count("two_client_rounds")
+        try:
+            bad = None
+            for name in STEPS[:3]:
+                for f in (A, B):
+                    r = await f.step(name, False)
+                    if r[0] != "ok":
+                        bad = (name, r)
+            for name in STEPS[3:5]:
+                ra, rb = await asyncio.gather(A.step(name, False), B.step(name, False))
+                for r in (ra, rb):
+                    if r[0] != "ok":
+                        bad = (name, r)
+            if bad:
+                if bad[1][0] == "timeout":
+                    acc.count("timeouts")
+                else:
+                    acc.violation(f"e2e:two-clients:{bad[0]}-failed:{bad[1][0]}",
+                                  f"two services used at once in one process: step {bad[0]}: {bad[1][0]} {bad[1][1]!r:.80}", case)
+                continue
+            wa = list(A.db) + [b"absent-a"]
+            wb = list(B.db) + [b"absent-b"]
+            rng.shuffle(wa)
+            rng.shuffle(wb)
+            for ka, kb in zip(wa, wb):
+                ra, rb = await asyncio.gather(A.step("search", False, keyword=ka), B.step("search", False, keyword=kb))
+                acc.count("searches", 2)
+                acc.count("concurrent_search_pairs")
+                for f, kw, r, who in ((A, ka, ra, "A"), (B, kb, rb, "B")):
+                    if r[0] == "timeout":
+                        acc.count("timeouts")
+                        bad = True
+                        break
+                    want = f.db.get(kw, [])
+                    ok = r[0] == "ok" and ((set(r[1]) == set(want) and len(r[1]) == len(want))
+                                           if f.scheme in gen.SET_RESULT else list(r[1]) == want)
+                    acc.count("searches_compared")
+                    if not ok:
+                        acc.violation("e2e:two-clients:wrong-or-missing-result",
+                                      f"services A ({sa}) and B ({sb}) searched at the same moment: service {who} was "
+                                      f"delivered {r[0]} {('%d ids' % len(r[1])) if r[0] == 'ok' else r[1]!r:.60}, its "
+                                      f"database holds {len(want)} ids for that keyword", case)
+                        bad = True
+                        break
+                if bad:
+                    break
+            if not bad:
+                acc.add("distinct", fp("pair", sa, sb, rnd))
+        except Exception as e:
+            acc.violation(f"e2e:two-clients:raised:{exc_site(e)}", f"{type(e).__name__}: {e}", case)
+        finally:
+            await A.drop()
+            await B.drop()
+    await server.stop()
+
+
 async def big_result(spec, acc, ctx):
     """One keyword whose result serializes to more than 1 MiB, next to small ones."""
     env = wh.setup_env()
@@ -493,6 +575,8 @@ def run_shard(spec, acc, ctx):
         asyncio.run(commands_layer(spec, acc, ctx))
     elif k == "big":
         asyncio.run(big_result(spec, acc, ctx))
+    elif k == "pair":
+        asyncio.run(two_clients(spec, acc, ctx))
     elif k == "procs":
         real_processes(spec, acc, ctx)
     acc.count("cases", acc.counters.get("workflows", 0) + acc.counters.get("command_workflows", 0) +
